@@ -37,10 +37,12 @@ class Check:
     nondeterminism_is_violation = True
     run_timeout = 300
     shrink_timeout = 150
-    rule = ('one case = one seeded scenario: world script (rest/rate/kick segments, magnitudes, noise), fault list '
-            '(glitch/scale/stuck/dup), 2-5 consumer tasks with swarm-randomised parameters and a seeded interleaving '
-            '(lag bound, optional starvation); distinct = distinct (interleaving signature, fault pattern, consumer '
-            'multiset) triple; non-trivial = at least two tasks actually interleaved or at least one fault fired')
+    rule = ('one case = one seeded scenario: world script (rest / constant-rate incl. single-axis and planar / kick segments, '
+            'magnitudes, noise), fault list (glitch/scale/stuck/dup, sometimes dropout and NaN-emitting sensor), 2-6 consumer tasks '
+            'with swarm-randomised parameters (period given by Dt, by frequency or per call; caller-owned configuration arrays, '
+            'possibly shared between instances; subscribers at 1x, 1/2 or 1/3 of the bus rate) and a seeded interleaving (lag '
+            'bound, optional starvation); distinct = distinct (interleaving signature, fault pattern, consumer multiset) triple; '
+            'non-trivial = at least two tasks actually interleaved or at least one fault fired')
     assumptions = [
         'the reference model is the library\'s own batch constructor run solo on a private copy of the history: equivalence, determinism and isolation are decided, absolute correctness is not',
         'interleaving granularity is one public call (the API is synchronous; no pre-emption inside a call)',
